@@ -162,6 +162,7 @@ impl DriverLite {
             last_op_info: Default::default(),
             value_tag: b'v',
             history: vec![],
+            partial_files_possible: false,
         };
         let t = d.build_config().open().map_err(|e| format!("open: {e:?}"))?;
         Ok(Self { tree: Some(t) })
